@@ -714,6 +714,7 @@ main(int argc, char **argv)
 	long nrandom = (long)vf_argi(argc, argv, "--random", 200);
 	long oplen = (long)vf_argi(argc, argv, "--oplen", 10000);
 	int small_depth = (int)vf_argi(argc, argv, "--small-depth", 3);
+	int nhash = (int)vf_argi(argc, argv, "--hashes", NHASH);   /* part A uses the first nhash masking hashes */
 	long cfgno = 0;
 	int c, ri, h, k, pf;
 	static const int rems[3] = { 0, 1, 99 };
@@ -723,11 +724,11 @@ main(int argc, char **argv)
 	if (depth > MAXDEPTH) depth = MAXDEPTH;
 	if (small_depth > MAXDEPTH) small_depth = MAXDEPTH;
 
-	if (br_ssl_session_cache_lru_init == NULL) return 2;
+	if (nhash > NHASH || nhash < 1) nhash = NHASH;
 
 	/* A: every operation sequence to `depth` over 6 IDs, capacities 0..4, lengths 100c + {0,1,99} */
 	for (k = 0; k < keys; k ++) {
-		for (h = 0; h < NHASH; h ++) {
+		for (h = 0; h < nhash; h ++) {
 			for (c = 0; c <= 4; c ++) {
 				for (ri = 0; ri < 3; ri ++) {
 					for (pf = 0; pf < 2; pf ++) {
